@@ -3,11 +3,11 @@ CONSTANTS
   Rate <- RateV
   Cap <- CapV
   Gap <- GapV
-  Writers = {1, 2}
-  Sizes <- Sizes2
+  Writers = {1, 2, 3, 4}
+  Sizes <- SizesV
   InitBucket <- InitV
   AdvSteps <- AdvV
-  CallUntil = 6000
+  CallUntil = 60000
   MaxTime = 200000
   Serialised = FALSE
 INVARIANT TypeOK
